@@ -1804,6 +1804,74 @@ impl World for C15 {
         out
     }
 
+    fn conc_history(rng: &mut Rng, shape: u64) -> Option<Vec<Op>> {
+        let n = 2 + (shape >> 4) as u8 % 6;
+        let reps = 1 + (shape >> 12) as usize % 3;
+        let mut ops = Vec::new();
+        let mut slots = [BLANK_SLOT; 7];
+        for k in 0..n as usize {
+            slots[k] = rng.below(53) as u8;
+        }
+        match shape % 6 {
+            0 => {
+                // the same hand converted several times
+                for _ in 0..=reps {
+                    ops.push(Op::BuildHand { dst: 0, n, slots, via_setters: false, order: 0 });
+                }
+                ops.push(Op::Count { r: 0 });
+            }
+            1 => {
+                // a live hand converted, changed by one setter, converted again, twice each
+                ops.push(Op::HandNew { h: 0, n, slots });
+                for _ in 0..=reps {
+                    ops.push(Op::FromHand { dst: 0, h: 0 });
+                }
+                ops.push(Op::HandSet { h: 0, k: rng.below(n as u64) as u8, slot: rng.below(53) as u8 });
+                for _ in 0..=reps {
+                    ops.push(Op::FromHand { dst: 1, h: 0 });
+                }
+            }
+            2 => {
+                let toks: Vec<Tok> = (0..1 + rng.usize_below(5)).map(|_| Tok::Card { idx: rng.below(52) as u8, spell: rng.below(12) as u8, tail: 0 }).collect();
+                for _ in 0..=reps {
+                    ops.push(Op::BuildText { dst: 0, tokens: toks.clone(), seps: vec![], lead: 0, trail: 0 });
+                }
+                ops.push(Op::Count { r: 0 });
+            }
+            3 => {
+                // the same set value peeled from two registers, and drained
+                let bits = rng.next_u64() & rng.next_u64() & CARD_MASK;
+                ops.push(Op::BuildRaw { dst: 0, bits });
+                ops.push(Op::BuildRaw { dst: 1, bits });
+                for _ in 0..=reps {
+                    ops.push(Op::Peel { r: 0 });
+                    ops.push(Op::Peel { r: 1 });
+                }
+                ops.push(Op::Drain { r: 0 });
+            }
+            4 => {
+                let (a, b) = (rng.next_u64() & rng.next_u64() & CARD_MASK, rng.next_u64() & rng.next_u64() & CARD_MASK);
+                ops.push(Op::BuildRaw { dst: 0, bits: a });
+                for _ in 0..=reps {
+                    ops.push(Op::FoldIn { dst: 1, a: 0, b: Src::Raw(b) });
+                    ops.push(Op::Has { r: 1, q: b });
+                    ops.push(Op::Count { r: 1 });
+                }
+            }
+            _ => {
+                let bits = rng.next_u64() & CARD_MASK;
+                ops.push(Op::BuildRaw { dst: 0, bits });
+                for _ in 0..=reps {
+                    ops.push(Op::Count { r: 0 });
+                    ops.push(Op::Valid { r: 0 });
+                    ops.push(Op::Single { r: 0 });
+                    ops.push(Op::Has { r: 0, q: bits & rng.next_u64() });
+                }
+            }
+        }
+        Some(ops)
+    }
+
     fn builder_kinds() -> &'static [usize] {
         &[K_HAND, K_TEXT, K_RAW, K_BFOLD, K_HNEW]
     }
